@@ -127,6 +127,32 @@ def o_equals(inp):
     return fails
 
 
+def o_equals_raw(inp):
+    """reflexive / equal to its copy / symmetric for ANY pair of sequences, given as raw relative message lists — ill-formed ones included
+    (a note-off that nothing opened, unclosed notes, re-triggers): equality must answer, and answer consistently, whatever it is asked"""
+    a = [tuple(m) for m in inp["a"]]
+    b = [tuple(m) for m in inp["b"]]
+    flags = tuple(inp["flags"])
+    kw = dict(ignore_channel=flags[0], ignore_time_signature=flags[1], ignore_key_signature=flags[2], ignore_velocity=flags[3])
+    A, B = P.seq_of_rel(a), P.seq_of_rel(b)
+    try:
+        aa, ac, ab, ba = A.equals(A, **kw), A.equals(A.copy(), **kw), A.equals(B, **kw), B.equals(A, **kw)
+    except Exception as e:
+        return [("raises", f"{type(e).__name__}: {e}")]
+    fails = []
+    if not aa:
+        fails.append(("reflexive", "a sequence does not equal itself"))
+    if not ac:
+        fails.append(("copy", "a sequence does not equal its copy"))
+    if ab != ba:
+        fails.append(("symmetric", f"a==b is {ab}, b==a is {ba}"))
+    return fails
+
+
+# D30 (fixed): a sequence whose only note event is a note-off that nothing opened made equals raise IndexError, even against itself
+D30_EXAMPLE = {"a": [G.pm(WAIT, 0, 5), G.pm(OFF, 3, None, note=60)], "b": [], "flags": [False, False, False, False]}
+
+
 def two_sigs_one_tick(inp):
     """some sequence of the pair holds two DIFFERENT signatures of one kind on one tick"""
     for side in ("a", "b"):
@@ -145,6 +171,7 @@ D27_EXAMPLE = {"a": {"notes": [], "sigs": [("ts", 0, (4, 4)), ("ts", 0, (3, 4))]
 
 def setup(ctx):
     ctx.oracle("equals", o_equals)
+    ctx.oracle("equals_raw", o_equals_raw)
 
     def kf_d27(f):
         return f["clause"] == "verdict" and two_sigs_one_tick(f["input"])
@@ -195,6 +222,16 @@ def wf_filter(notes):
 def generate(ctx):
     rng = ctx.rng
     ctx.check("equals", D27_EXAMPLE)            # the recorded instance of the known finding
+    ctx.check("equals_raw", D30_EXAMPLE)        # the recorded instance of a repaired defect: reported again if it ever returns
+    for i in range(ctx.n(150, 3000)):
+        a = G.gen_ill_rel(rng, n=rng.randint(1, 8), channels=rng.choice([(0,), (0, 1), (3,)]), pitches=(60, 62))
+        b = rng.choice([[], a[:-1], G.gen_ill_rel(rng, n=rng.randint(1, 6), channels=(0, 1), pitches=(60, 62))])
+        if rng.random() < 0.3:
+            # only note-offs that nothing opened (and waits): a pairing table with channels but no pairing
+            a = [m for m in a if m[0] in (OFF, WAIT)]
+            ctx.count("raw:orphan-offs-only")
+        ctx.count("raw")
+        ctx.check("equals_raw", {"a": a, "b": b, "flags": list(rng.choice(FLAGSETS))})
     for i in range(ctx.n(60, 1500)):
         notes = wf_filter(G.gen_notes(rng, n_notes=rng.randint(0, 6), channels=rng.choice([(0,), (0,), (0, 1)]),
                                       pitches=[60, 62, 64], max_tick=100, max_dur=30, short_bias=0.1))
